@@ -69,7 +69,7 @@ LayoutDump == PrintT(<<"LAYOUT", ToJson([n |-> mcase.n, present |-> mcase.presen
 LayoutInv == Len(LayoutCode(mcase.n, mcase.present, mcase.mod)) % 8 = mcase.mod
 
 (* --------------------------------------------------------------- memory *)
-Offs == {"0", "32", "p32", "p63m1", "p63", "p64m1", "p64", "p255", "p255x", "max"}
+Offs == {"0", "32", "p32", "p63m1", "p63", "p64m1", "p64", "p64p32", "p255", "p255p32", "p255x", "max"}
 Lens == {"0", "1", "32"}
 Ops3 == {"mcopy", "calldatacopy", "codecopy", "returndatacopy"}       \* dst, src, len
 Ops2 == {"mstore", "mstore8", "mload", "sha3", "log0", "return", "revert", "create", "extcodecopy", "callargs"}
